@@ -35,7 +35,9 @@ def run_variant(v, tier='quick'):
         src = open(path, encoding='utf8').read()
     except FileNotFoundError:
         return (vid, 'skipped', 'file missing')
-    if src.count(old) != 1:
+    multi = kind.endswith('*')
+    kind = kind.rstrip('*')
+    if src.count(old) != 1 and not (multi and src.count(old) > 1):
         return (vid, 'skipped', f'anchor occurs {src.count(old)} times')
     d = scratch()
     try:
@@ -81,7 +83,7 @@ def summarise(vs, res):
         if r[1] in ('skipped', 'broken'):
             s['skipped'] += 1
             continue
-        if v[2] == 'mutant':
+        if v[2].rstrip('*') == 'mutant':
             s['mutants_total'] += 1
             if r[1] in ('killed',):
                 s['mutants_killed'] += 1
